@@ -33,7 +33,7 @@ func trustPool(certs [][]byte) *cms.GenericCertPool {
 	pool := &cms.GenericCertPool{}
 	for _, c := range certs {
 		if err := pool.Add(c); err != nil {
-			fw.Bug("trust store rejects a harness-issued certificate: %v", err)
+			fw.LibFail("trust-store-rejects-certificate", "GenericCertPool.Add rejects a well-formed certificate: %v", err)
 		}
 	}
 	return pool
